@@ -1325,7 +1325,9 @@ class Transport(threading.Thread, ClosingContextManager):
             if len(self.server_accepts) > 0:
                 chan = self.server_accepts.pop(0)
             else:
-                self.server_accept_cv.wait(timeout)
+                # don't wait on a dead transport: nobody will ever notify us
+                if self.active:
+                    self.server_accept_cv.wait(timeout)
                 if len(self.server_accepts) > 0:
                     chan = self.server_accepts.pop(0)
                 else:
@@ -2331,11 +2333,13 @@ class Transport(threading.Thread, ClosingContextManager):
                     self.auth_handler.abort()
                 for event in self.channel_events.values():
                     event.set()
-                try:
-                    self.lock.acquire()
-                    self.server_accept_cv.notify()
-                finally:
-                    self.lock.release()
+            # wake every accept() waiter, also after a local close() (which
+            # has already cleared self.active)
+            try:
+                self.lock.acquire()
+                self.server_accept_cv.notify_all()
+            finally:
+                self.lock.release()
             self.sock.close()
         except:
             # Don't raise spurious 'NoneType has no attribute X' errors when we
